@@ -49,6 +49,8 @@ struct Fe {
     p: Pending,
     /// blocking was active on some side when it was fired
     blocking_at_fire: bool,
+    /// the simulator fired another action before it had processed a single further event
+    fired_in_a_batch: bool,
     /// a newer action or a Cancel of the action timer was returned for the machine afterwards, at this time
     overtaken_at: Option<u64>,
 }
@@ -154,7 +156,9 @@ pub fn check_timeline(c: &SimCase, run: &SimRun) -> (Vec<Viol>, Stats) {
                             bump("block_actions_applied_before_an_earlier_event");
                         }
                         if m < s.firedq.len() {
-                            s.firedq[m].push(Fe { p, blocking_at_fire: any_blocking_now, overtaken_at: None });
+                            let batch = (fi >= 2 && matches!(fires[fi - 2].fired, Fired::Action(_)) && fires[fi - 2].events_seen == f.events_seen)
+                                || (fi < fires.len() && matches!(fires[fi].fired, Fired::Action(_)) && fires[fi].events_seen == f.events_seen);
+                            s.firedq[m].push(Fe { p, blocking_at_fire: any_blocking_now, fired_in_a_batch: batch, overtaken_at: None });
                         }
                     }
                 },
@@ -238,7 +242,10 @@ pub fn check_timeline(c: &SimCase, run: &SimRun) -> (Vec<Viol>, Stats) {
                             let when = if at < fe.p.due { "before-it-was-due" } else { "at-the-instant-it-was-due" };
                             // a block takes effect when the simulator fires it (known finding K3), so what its own
                             // effect releases or ends can be reported before its BlockingBegin
-                            let ctx = if fe.p.kind == 2 {
+                            let ctx = if fe.fired_in_a_batch {
+                                // never seen on the unchanged tree: the event of one firing is processed before the next firing
+                                "several-actions-fired-before-any-of-their-events"
+                            } else if fe.p.kind == 2 {
                                 "block-applied-when-fired"
                             } else if fe.blocking_at_fire {
                                 "padding-fired-while-blocking-was-active"
